@@ -124,7 +124,12 @@ type summary struct {
 func main() {
 	dir := flag.String("repo", "/repo", "repository root")
 	out := flag.String("out", "", "output Coq file for the lock graph")
+	fieldsOut := flag.String("fields", "", "output Coq file for the guarded-field access table of imapclient.Client (skips the lock graph)")
 	flag.Parse()
+	if *fieldsOut != "" {
+		fieldAccess(*dir, *fieldsOut)
+		return
+	}
 	cfg := &packages.Config{Mode: packages.LoadAllSyntax, Dir: *dir, Env: append(os.Environ(), "GOFLAGS=-mod=mod", "GOPROXY=off")}
 	pkgs, err := packages.Load(cfg, "./imapserver/...", "./internal/...", ".")
 	if err != nil || packages.PrintErrors(pkgs) > 0 {
